@@ -413,7 +413,6 @@ func c11BatchAndParams(c *Ctx) {
 	}
 }
 
-
 // dependsOn: does value v (through φ, arithmetic and conversions) depend on target?
 func dependsOn(v, target ssa.Value, seen map[ssa.Value]bool) bool {
 	if v == target {
